@@ -258,7 +258,10 @@ pub struct FundingScope { pub channel_parameters: ChannelTransactionParameters }
 //@extract lightning/src/sign/mod.rs :: enum SpendableOutputDescriptor
 //@end
 pub struct ChannelMonitorImpl { pub destination_script: ScriptBuf, pub broadcasted_holder_revokable_script: Option<(ScriptBuf, PublicKey, RevocationKey)>, pub on_holder_tx_csv: u16,
-    pub counterparty_payment_script: ScriptBuf, pub shutdown_script: Option<ScriptBuf>, pub channel_keys_id: [u8; 32] }
+    pub counterparty_payment_script: ScriptBuf, pub shutdown_script: Option<ScriptBuf>, pub channel_keys_id: [u8; 32],
+    // the delay WE imposed on the counterparty's own outputs: present so that a change that reads it where the holder's delay is meant is verified
+    pub counterparty_commitment_params: CounterpartyCommitmentParameters }
+pub struct CounterpartyCommitmentParameters { pub on_counterparty_tx_csv: u16 }
 pub open spec fn static_desc(m: ChannelMonitorImpl, txid: Txid, i: u16, outp: TxOut) -> SpendableOutputDescriptor {
     SpendableOutputDescriptor::StaticOutput { outpoint: OutPoint { txid, index: i }, output: outp, channel_keys_id: Some(m.channel_keys_id) } }
 // what get_spendable_outputs reports for one output: one descriptor per script of ours it pays to (destination / delayed / to_remote / shutdown);
